@@ -1,14 +1,334 @@
-//! placeholder, filled in later
+//! C18: version gate matrix, the three migration paths on generated stores, abort inside a
+//! migration then retry. Raw storage is decoded with serde_json::Value only.
+
+use crate::eng_admin::ns_key;
+use crate::engine::{addr20, addr32, u, Violation};
 use crate::run::Eval;
+use crate::util::*;
+use crate::world::*;
 use serde::{Deserialize, Serialize};
+use serde_json::{json, Value};
+use std::collections::BTreeMap;
 
 #[derive(Serialize, Deserialize, Clone, Debug, PartialEq)]
-pub struct MCase {}
-
-pub fn eval(_c: &MCase) -> Eval {
-    Eval::default()
+pub struct MCase {
+    /// 0: 0.4.18->0.4.20, 1: 0.4.20->1.0.0, 2: 1.0.0->1.1.0
+    pub path: u8,
+    pub stored_name: u8,
+    pub stored_version: u8,
+    /// which message is sent (normally == path; differs for the gate matrix)
+    pub msg_path: u8,
+    pub packets: Vec<(u64, String, u8)>,
+    pub replies: Vec<(u64, String)>,
+    pub abort_at: Option<u16>,
+    pub fill: u64,
+    pub wrong_prefix_arg: bool,
 }
 
-pub fn gen(_seed: u64) -> MCase {
-    MCase {}
+pub const NAMES: &[&str] = &["staking", "staking", "staking", "treasury", "crates.io:staking", ""];
+pub const VERSIONS: &[&str] = &["0.4.18", "0.4.20", "1.0.0", "1.1.0", "1.2.0", "0.4.19", "2.0.0", "garbage", "", "1.0.0-rc1", "0.9.9"];
+const SOURCES: &[&str] = &["0.4.18", "0.4.20", "1.0.0"];
+const STATUSES: &[&str] = &["sent", "ack_success", "ack_failure", "timed_out"];
+
+pub fn gen(seed: u64) -> MCase {
+    let mut rng = Rng::new(seed);
+    let path = rng.below(3) as u8;
+    let gate = rng.chance(1, 2);
+    let (stored_name, stored_version, msg_path) = if gate { (rng.below(6) as u8, rng.below(11) as u8, if rng.chance(2, 3) { path } else { rng.below(3) as u8 }) } else { (0, path, path) };
+    let np = rng.below(7);
+    let mut seqs: Vec<u64> = vec![];
+    let packets = (0..np)
+        .map(|_| {
+            let mut s = rng.range(1, 60);
+            while seqs.contains(&s) {
+                s += 1;
+            }
+            seqs.push(s);
+            (s, rng.pick(&[1u128, 1000, 999_999_999_999, 10u128.pow(27), u128::MAX]).to_string(), rng.below(4) as u8)
+        })
+        .collect();
+    let replies = (0..rng.below(3)).map(|i| (1_700_000_000_000_000_000 + i, rng.pick(&[1u128, 5000, u128::MAX]).to_string())).collect();
+    MCase { path, stored_name, stored_version, msg_path, packets, replies, abort_at: if rng.chance(1, 4) { Some(rng.range(1, 30) as u16) } else { None }, fill: rng.next_u64(), wrong_prefix_arg: rng.chance(1, 6) }
+}
+
+pub fn semver_lt(a: &str, b: (u64, u64, u64)) -> Option<bool> {
+    // plain x.y.z only (pre-release tags make a version smaller than its release)
+    let (core, pre) = match a.split_once('-') {
+        Some((c, p)) => (c, Some(p)),
+        None => (a, None),
+    };
+    let p: Vec<&str> = core.split('.').collect();
+    if p.len() != 3 {
+        return None;
+    }
+    let v: Vec<u64> = p.iter().filter_map(|x| if x.chars().all(|c| c.is_ascii_digit()) && !x.is_empty() { x.parse().ok() } else { None }).collect();
+    if v.len() != 3 {
+        return None;
+    }
+    let t = (v[0], v[1], v[2]);
+    Some(t < b || (t == b && pre.is_some()))
+}
+
+fn msg_for(path: u8, c: &MCase, np: &str, pp: &str) -> Value {
+    match path % 3 {
+        0 => json!({"v0_4_18_to_v0_4_20": {"send_fees_to_treasury": c.fill % 2 == 0}}),
+        1 => json!({"v0_4_20_to_v1_0_0": {
+            "native_account_address_prefix": if c.wrong_prefix_arg { "cosmos" } else { np },
+            "native_validator_address_prefix": format!("{}valoper", np),
+            "native_token_denom": "utia",
+            "protocol_account_address_prefix": pp,
+        }}),
+        _ => json!({"v1_0_0_to_v1_1_0": {}}),
+    }
+}
+
+pub fn eval(c: &MCase) -> Eval {
+    let mut ev = Eval::default();
+    let (pp, np) = ("osmo", "celestia");
+    let vp = "celestiavaloper";
+    let setup = Setup {
+        proto_prefix: pp.into(),
+        native_prefix: np.into(),
+        valoper_prefix: vp.into(),
+        channel: "channel-3".into(),
+        ibc_denom: format!("ibc/{}", hex(&sha2_of("d")).to_uppercase()),
+        native_denom: "utia".into(),
+        subdenom: "milkTIA".into(),
+        staking_addr: addr32(pp, "staking-contract"),
+        treasury_addr: addr32(pp, "treasury-contract"),
+        oracle_addr: addr32(pp, "oracle-contract"),
+        sink_addr: addr32(pp, "sink-contract"),
+    };
+    let ibc = setup.ibc_denom.clone();
+    let admin = addr20(pp, "admin0");
+    let staker = addr20(np, "staker0");
+    let collector = addr20(np, "collector0");
+    let treasury = setup.treasury_addr.clone();
+    let oracle = setup.oracle_addr.clone();
+    let mut w = World::new(setup, 1_700_000_000_000_000_000);
+    let mut viol: Vec<Violation> = vec![];
+    let mut rng = Rng::new(c.fill);
+    // a real, current-layout store as the starting point
+    let inst = json!({
+        "native_chain_config": {"account_address_prefix": np, "validator_address_prefix": vp, "token_denom": "utia", "validators": [addr20(vp, "v0"), addr20(vp, "v1")], "unbonding_period": 1_814_400u64, "staker_address": staker, "reward_collector_address": collector},
+        "protocol_chain_config": {"account_address_prefix": pp, "ibc_token_denom": ibc, "ibc_channel_id": "channel-3", "minimum_liquid_stake_amount": "100", "oracle_address": oracle},
+        "protocol_fee_config": {"dao_treasury_fee": "10000", "treasury_address": treasury},
+        "liquid_stake_token_denom": "milkTIA", "batch_period": 86_400u64, "monitors": [addr20(pp, "m0")],
+    });
+    let r = w.tx_instantiate(Which::Staking, &admin, &inst.to_string());
+    if !r.ok {
+        viol.push(Violation { prop: "HARNESS", clause: "boot", step: 0, msg: r.err.clone() });
+    }
+    let path = c.path % 3;
+    // legacy configuration layouts
+    let monitors_opt = if rng.chance(1, 4) { Value::Null } else { json!([addr20(pp, "m0"), addr20(pp, "m1")]) };
+    let oracle_opt = if rng.chance(1, 3) { Value::Null } else { json!(oracle) };
+    let send_fees = rng.chance(1, 2);
+    let old_common = json!({
+        "native_token_denom": ibc,
+        "liquid_stake_token_denom": format!("factory/{}/milkTIA", w.setup.staking_addr),
+        "treasury_address": treasury,
+        "monitors": monitors_opt,
+        "validators": [addr20(vp, "v0"), addr20(vp, "v1"), addr20(vp, "v2")],
+        "batch_period": rng.range(1, 1_000_000),
+        "unbonding_period": rng.range(1, 10_000_000),
+        "protocol_fee_config": {"dao_treasury_fee": rng.below(100_001).to_string()},
+        "multisig_address_config": {"staker_address": staker, "reward_collector_address": collector},
+        "minimum_liquid_stake_amount": rng.below(1_000_000).to_string(),
+        "ibc_channel_id": format!("channel-{}", rng.below(500)),
+        "stopped": rng.chance(1, 2),
+        "oracle_address": oracle_opt,
+    });
+    match path {
+        0 => {
+            let mut cfg = old_common.clone();
+            cfg["operators"] = if rng.chance(1, 2) { Value::Null } else { json!([addr20(pp, "op0")]) };
+            cfg["oracle_contract_address"] = if rng.chance(1, 2) { Value::Null } else { json!(addr32(pp, "o1")) };
+            cfg["oracle_contract_address_v2"] = if rng.chance(1, 2) { Value::Null } else { json!(addr32(pp, "o2")) };
+            w.st.staking.map.insert(b"config".to_vec(), serde_json::to_vec(&cfg).unwrap());
+        }
+        1 => {
+            let mut cfg = old_common.clone();
+            cfg["send_fees_to_treasury"] = json!(send_fees);
+            w.st.staking.map.insert(b"config".to_vec(), serde_json::to_vec(&cfg).unwrap());
+        }
+        _ => {
+            let infl = ns_key("inflight");
+            let wait = ns_key("ibc_waiting_for_reply");
+            for (seq, amt, st) in &c.packets {
+                let mut k = infl.clone();
+                k.extend(seq.to_be_bytes());
+                w.st.staking.map.insert(k, serde_json::to_vec(&json!({"sequence": seq, "amount": amt, "status": STATUSES[*st as usize % 4]})).unwrap());
+            }
+            for (id, amt) in &c.replies {
+                let mut k = wait.clone();
+                k.extend(id.to_be_bytes());
+                w.st.staking.map.insert(k, serde_json::to_vec(&json!({"amount": amt})).unwrap());
+            }
+        }
+    }
+    let name = NAMES[c.stored_name as usize % NAMES.len()];
+    let ver = VERSIONS[c.stored_version as usize % VERSIONS.len()];
+    w.st.staking.map.insert(b"contract_info".to_vec(), serde_json::to_vec(&json!({"contract": name, "version": ver})).unwrap());
+    let before: BTreeMap<Vec<u8>, Vec<u8>> = w.st.staking.map.clone();
+    let msg = msg_for(c.msg_path, c, np, pp);
+    let code = staking::contract::CONTRACT_VERSION;
+    let code_t: Vec<u64> = code.split('.').filter_map(|x| x.parse().ok()).collect();
+    let code_t = (code_t[0], code_t[1], code_t[2]);
+    let source = SOURCES[c.msg_path as usize % 3];
+    // the gate: same contract name, exactly the path's source version, strictly older than the code
+    let gate_ok = name == "staking" && ver == source && semver_lt(ver, code_t) == Some(true);
+    // the store has the layout of `path`; a message of another path may fail to decode it even when the gate passes
+    let layout_ok = c.msg_path % 3 == path;
+    let args_ok = !(c.msg_path % 3 == 1 && c.wrong_prefix_arg);
+
+    if let Some(k) = c.abort_at {
+        w.faults.abort_at_access = Some(k as u64);
+    }
+    let r = w.tx_migrate(Which::Staking, &msg.to_string());
+    ev.stats.txs += 1;
+    if r.out_of_gas {
+        ev.stats.fault("F9_abort_at_storage_access");
+        if w.st.staking.map != before {
+            viol.push(Violation { prop: "C18", clause: "aborted_migration_changes_nothing", step: 1, msg: "storage differs after an aborted migration".into() });
+        }
+        // retry without the fault
+        let r2 = w.tx_migrate(Which::Staking, &msg.to_string());
+        ev.stats.txs += 1;
+        check_result(c, &r2, &before, &w, gate_ok, layout_ok, args_ok, name, ver, &msg, &mut viol, &mut ev, send_fees, &ibc, &staker, np, pp);
+        if r2.ok {
+            ev.stats.probe("migration_retried_after_abort");
+        }
+    } else {
+        check_result(c, &r, &before, &w, gate_ok, layout_ok, args_ok, name, ver, &msg, &mut viol, &mut ev, send_fees, &ibc, &staker, np, pp);
+    }
+    for p in &w.panics {
+        viol.push(Violation { prop: "C16", clause: "panic", step: 1, msg: format!("{}::{} panicked: {} | input: {}", p.contract, p.entry, p.msg, p.input) });
+    }
+    let mut h = Fnv::default();
+    h.u64(c.path as u64);
+    h.u64(c.msg_path as u64);
+    h.str(name);
+    h.str(ver);
+    h.u64(c.packets.len() as u64);
+    h.u64(c.replies.len() as u64);
+    h.u64(c.abort_at.unwrap_or(0) as u64);
+    h.u64(r.ok as u64);
+    for p in &c.packets {
+        h.u64(p.0);
+        h.u64(p.2 as u64);
+    }
+    ev.hash = h.0;
+    ev.viol = viol;
+    ev.nontrivial = true;
+    ev.stats.ops = 1;
+    ev.faulted = c.abort_at.is_some();
+    ev
+}
+
+#[allow(clippy::too_many_arguments)]
+fn check_result(c: &MCase, r: &TxResult, before: &BTreeMap<Vec<u8>, Vec<u8>>, w: &World, gate_ok: bool, layout_ok: bool, args_ok: bool, name: &str, ver: &str, msg: &Value, viol: &mut Vec<Violation>, ev: &mut Eval, send_fees: bool, ibc: &str, staker: &str, np: &str, pp: &str) {
+    let after = &w.st.staking.map;
+    if !r.ok {
+        if after != before {
+            viol.push(Violation { prop: "C18", clause: "refused_migration_changes_nothing", step: 1, msg: format!("refused migration {} from ({}, {}) changed storage", msg, name, ver) });
+        }
+        if gate_ok && layout_ok && args_ok && !r.panicked && !r.out_of_gas {
+            viol.push(Violation { prop: "C18", clause: "migration_from_exact_source_succeeds", step: 1, msg: format!("migration {} from ({}, {}) refused: {}", msg, name, ver, r.err) });
+        }
+        ev.stats.probe("migration_refused");
+        return;
+    }
+    ev.stats.tx_ok += 1;
+    if !gate_ok {
+        viol.push(Violation { prop: "C18", clause: "version_gate", step: 1, msg: format!("migration {} succeeded from stored contract ({:?}, {:?})", msg, name, ver) });
+        return;
+    }
+    if !layout_ok {
+        return;
+    }
+    let j = |m: &BTreeMap<Vec<u8>, Vec<u8>>, k: &[u8]| -> Value { m.get(k).and_then(|v| serde_json::from_slice(v).ok()).unwrap_or(Value::Null) };
+    let ci = j(after, b"contract_info");
+    if ci["version"].as_str() != Some(staking::contract::CONTRACT_VERSION) || ci["contract"].as_str() != Some("staking") {
+        viol.push(Violation { prop: "C18", clause: "records_new_version", step: 1, msg: format!("contract_info after migration: {}", ci) });
+    }
+    let infl = ns_key("inflight");
+    let wait = ns_key("ibc_waiting_for_reply");
+    let path = c.msg_path % 3;
+    // every record the path does not own is byte-identical
+    for k in before.keys().chain(after.keys()) {
+        let owned = k == b"contract_info" || (path < 2 && k == b"config") || (path == 2 && (k.starts_with(&infl) || k.starts_with(&wait)));
+        if !owned && before.get(k) != after.get(k) {
+            viol.push(Violation { prop: "C18", clause: "other_data_untouched", step: 1, msg: format!("record {:?} changed", String::from_utf8_lossy(k)) });
+            break;
+        }
+    }
+    let old = j(before, b"config");
+    let new = j(after, b"config");
+    match path {
+        0 => {
+            for f in ["native_token_denom", "liquid_stake_token_denom", "treasury_address", "monitors", "validators", "batch_period", "unbonding_period", "protocol_fee_config", "multisig_address_config", "minimum_liquid_stake_amount", "ibc_channel_id", "stopped", "oracle_address"] {
+                if old[f] != new[f] {
+                    viol.push(Violation { prop: "C18", clause: "old_path_field_by_field", step: 1, msg: format!("0.4.18->0.4.20 changed {}: {} -> {}", f, old[f], new[f]) });
+                }
+            }
+            if new["send_fees_to_treasury"] != msg["v0_4_18_to_v0_4_20"]["send_fees_to_treasury"] {
+                viol.push(Violation { prop: "C18", clause: "old_path_field_by_field", step: 1, msg: "send_fees_to_treasury not taken from the message".into() });
+            }
+        }
+        1 => {
+            let pairs: Vec<(Value, Value, &str)> = vec![
+                (new["native_chain_config"]["validators"].clone(), old["validators"].clone(), "validators"),
+                (new["native_chain_config"]["unbonding_period"].clone(), old["unbonding_period"].clone(), "unbonding_period"),
+                (new["native_chain_config"]["staker_address"].clone(), old["multisig_address_config"]["staker_address"].clone(), "staker_address"),
+                (new["native_chain_config"]["reward_collector_address"].clone(), old["multisig_address_config"]["reward_collector_address"].clone(), "reward_collector_address"),
+                (new["native_chain_config"]["account_address_prefix"].clone(), json!(np), "native account prefix"),
+                (new["native_chain_config"]["validator_address_prefix"].clone(), json!(format!("{}valoper", np)), "validator prefix"),
+                (new["native_chain_config"]["token_denom"].clone(), json!("utia"), "native token denom"),
+                (new["protocol_chain_config"]["account_address_prefix"].clone(), json!(pp), "protocol prefix"),
+                (new["protocol_chain_config"]["ibc_channel_id"].clone(), old["ibc_channel_id"].clone(), "ibc_channel_id"),
+                (new["protocol_chain_config"]["ibc_token_denom"].clone(), old["native_token_denom"].clone(), "ibc_token_denom"),
+                (new["protocol_chain_config"]["minimum_liquid_stake_amount"].clone(), old["minimum_liquid_stake_amount"].clone(), "minimum_liquid_stake_amount"),
+                (new["protocol_chain_config"]["oracle_address"].clone(), old["oracle_address"].clone(), "oracle_address"),
+                (new["protocol_fee_config"]["dao_treasury_fee"].clone(), old["protocol_fee_config"]["dao_treasury_fee"].clone(), "dao_treasury_fee"),
+                (new["protocol_fee_config"]["treasury_address"].clone(), if send_fees { old["treasury_address"].clone() } else { Value::Null }, "treasury_address"),
+                (new["liquid_stake_token_denom"].clone(), old["liquid_stake_token_denom"].clone(), "liquid_stake_token_denom"),
+                (new["batch_period"].clone(), old["batch_period"].clone(), "batch_period"),
+                (new["monitors"].clone(), if old["monitors"].is_null() { json!([]) } else { old["monitors"].clone() }, "monitors"),
+                (new["stopped"].clone(), old["stopped"].clone(), "stopped"),
+            ];
+            for (n, o, f) in pairs {
+                if n != o {
+                    viol.push(Violation { prop: "C18", clause: "old_path_field_by_field", step: 1, msg: format!("0.4.20->1.0.0 field {}: new {} vs old {}", f, n, o) });
+                }
+            }
+        }
+        _ => {
+            let kb: Vec<&Vec<u8>> = before.keys().filter(|k| k.starts_with(&infl) || k.starts_with(&wait)).collect();
+            let ka: Vec<&Vec<u8>> = after.keys().filter(|k| k.starts_with(&infl) || k.starts_with(&wait)).collect();
+            if ka != kb {
+                viol.push(Violation { prop: "C18", clause: "records_keep_their_keys", step: 1, msg: "set of transfer / pending-reply keys changed".into() });
+            }
+            for (seq, amt, st) in &c.packets {
+                let mut k = infl.clone();
+                k.extend(seq.to_be_bytes());
+                let n = j(after, &k);
+                if n["sequence"].as_u64() != Some(*seq) || n["amount"]["amount"].as_str() != Some(amt.as_str()) || n["amount"]["denom"].as_str() != Some(ibc) || n["receiver"].as_str() != Some(staker) || n["status"].as_str() != Some(STATUSES[*st as usize % 4]) {
+                    viol.push(Violation { prop: "C18", clause: "packet_record_preserved", step: 1, msg: format!("packet (seq {}, amount {}, status {}) migrated to {}", seq, amt, STATUSES[*st as usize % 4], n) });
+                }
+            }
+            for (id, amt) in &c.replies {
+                let mut k = wait.clone();
+                k.extend(id.to_be_bytes());
+                let n = j(after, &k);
+                if n["amount"]["amount"].as_str() != Some(amt.as_str()) || n["amount"]["denom"].as_str() != Some(ibc) || n["receiver"].as_str() != Some(staker) {
+                    viol.push(Violation { prop: "C18", clause: "pending_reply_preserved", step: 1, msg: format!("pending reply (id {}, amount {}) migrated to {}", id, amt, n) });
+                }
+            }
+            let _ = u(&Value::Null);
+            if !c.packets.is_empty() {
+                ev.stats.probe("migrated_with_tracked_packets");
+            }
+        }
+    }
 }
